@@ -63,6 +63,7 @@ def run(kind, schema, zslots, ttl=172800, desc=None, strict=True, mods=None, ksk
         probs.append(f"an SKR was produced although: {exp[1]}")
     elif exp[0] == "ok":
         probs += S.compare_result(sc, impl, exp)
+        probs += S.written_skr_problems(sc, impl, exp)
         ok_runs += 1
     cases.append(r["coq"])
     d = {"schema": {i: {k: v for k, v in a.items() if v} for i, a in schema.items()}, "zsk_algs": [[k["alg"] for k in s] for s in zslots],
@@ -120,7 +121,7 @@ for nb in ([2, 3, 9] if TIER == "quick" else range(1, 10)):
                 schema[i] = ({"publish": ["ksk_b"], "sign": ["ksk_a", "ksk_b"], "revoke": ["ksk_a"]} if 1 < i < nb else {"publish": ["ksk_a", "ksk_b"] if i == 1 else ["ksk_b"], "sign": ["ksk_b"], "revoke": []})
             else:
                 schema[i] = {"publish": R.sample(names3, R.randrange(0, 3)), "sign": R.sample(names3, R.randrange(1, 3)), "revoke": R.sample(names3, R.randrange(0, 2))}
-        run("multi-slot-" + style, schema, zsl, ttl=R.choice([172800, 300]))
+        run("multi-slot-" + style, schema, zsl, ttl=R.choice([172800, 300, 0, 1]))
 run("revoke-tag-carry", {1: {"publish": ["ksk_rc", "ksk_ec"], "sign": ["ksk_rc"], "revoke": []}, 2: {"publish": ["ksk_ec"], "sign": ["ksk_rc", "ksk_ec"], "revoke": ["ksk_rc"]},
                          3: {"publish": ["ksk_ec"], "sign": ["ksk_ec"], "revoke": []}}, [[ZEC], [ZEC], [ZEC]])
 # the token is what counts, every time: the same labels backed by other key material in the next ceremony of the same process
@@ -132,6 +133,14 @@ for rnd in range(2):
     sch = {1: {"publish": ["ksk_a", "ksk_b"], "sign": ["ksk_a"], "revoke": []}, 2: {"publish": ["ksk_b"], "sign": ["ksk_a", "ksk_b"], "revoke": ["ksk_a"]}}
     run("same-labels-first-token", sch, [[Z[0]], [Z[0]]])
     run("same-labels-other-token", sch, [[Z[0]], [Z[0]]], mods=MODS_OTHER, ksks=KSKS_OTHER)
+# two ZSKs whose key tags collide, and a ZSK whose tag equals that of a revoked/unrevoked KSK's neighbour: every one of them is in the written SKR
+_ca, _cb = P.ec_tag_collision(13)
+ZTW = [ksrxml.mk_key(_ca, alg=13, ttl=3600, ident="ZSK-twin-a"), ksrxml.mk_key(_cb, alg=13, ttl=3600, ident="ZSK-twin-b")]
+P.save()
+run("colliding-key-tags", {1: {"publish": ["ksk_ec"], "sign": ["ksk_ec"], "revoke": []}, 2: {"publish": ["ksk_ec", "ksk_rc"], "sign": ["ksk_ec"], "revoke": []}}, [ZTW, ZTW + [ZEC]])
+run("colliding-key-tags", {1: {"publish": ["ksk_ec"], "sign": ["ksk_ec"], "revoke": ["ksk_rc"]}}, [list(reversed(ZTW))])
+for t_ in (0, 1, 2**31 - 1):
+    run("configured-ttl", {1: {"publish": ["ksk_a"], "sign": ["ksk_a"], "revoke": []}}, [[Z[0]]], ttl=t_)
 # schema missing a slot
 run("schema-missing-slot", {1: {"publish": ["ksk_a"], "sign": ["ksk_a"], "revoke": []}}, [[Z[0]], [Z[0]]])
 
